@@ -756,6 +756,14 @@ static Plan gen_plan(const string &cfg, uint64_t seed, long long index) {
                         "\xd0\xbf\xd0\xbe\xd1\x87\xd1\x82\xd0\xb0.txt", "\xff\xfe.txt", "-", "--", "-h", "--help", "-file.txt", "./a/../b.txt", "/", "/dev/null", ".", "..", "a//b", "~", "con", "file:///etc/passwd", "http://x/y?z=%41", "sim:0", "sim:999" };
                     fo.name = NM[sim_below(&nr, sizeof NM / sizeof NM[0])];
                     if (sim_below(&nr, 12) == 0) fo.name = string(200 + sim_below(&nr, 4000), 'n') + fo.name;      // longer than NAME_MAX / PATH_MAX
+                    else if (sim_below(&nr, 8) == 0) {
+                        // a deep path whose components are full of bytes that whoever prints the name will want to escape:
+                        // legal (each component <= 255, the whole < PATH_MAX), yet several times longer once escaped
+                        static const char *FILL[] = { "\x01", "\x1b", "\t", "%", "\\", "\x7f", "\xff", "\"" };
+                        const char *fb = FILL[sim_below(&nr, 8)]; int comps = 1 + (int)sim_below(&nr, 15); size_t cl = 100 + sim_below(&nr, 156);
+                        string pth; for (int c2 = 0; c2 < comps; c2++) { for (size_t x = 0; x < cl; x++) pth += fb; pth += "/"; }
+                        fo.name = pth + "list.txt";
+                    }
                 }
             }
             int nl; unsigned lc = (unsigned)sim_below(&w, 100);
